@@ -1,16 +1,31 @@
 import FormulaicVerif.Proofs.C12
 import FormulaicVerif.Proofs.C12Cubic
+import FormulaicVerif.Proofs.C12Extend
+import FormulaicVerif.Proofs.C12Glue
 import Mathlib.Algebra.Order.BigOperators.Group.List
 /-! # C12 — Spline transforms reproduce the mathematical bases they name
 
 Property theorems only; helper lemmas are in `Proofs/C12Spec.lean` (the reference recursion over
-an arbitrary linearly ordered field), `Proofs/C12.lean` (model = reference) and
-`Proofs/C12Cubic.lean`.  Every `theorem` in this file is an obligation audited with
+an arbitrary linearly ordered field), `Proofs/C12.lean` (model = reference), `Proofs/C12Cubic.lean`
+(base functions at the knots, centering), `Proofs/C12Piece.lean` (algebra and derivatives of one
+cubic piece), `Proofs/C12Interp.lean` (model row = piece values), `Proofs/C12Contract.lean`
+(`residualF = 0` ⟹ tridiagonal equations), `Proofs/C12Extend.lean` (tangent-line extrapolation),
+`Proofs/C12Glue.lean` (real-analysis gluing).  Every `theorem` in this file is an obligation audited with
 `#print axioms`.
 
 Models: `Model/BSpline.lean` (`basis_spline`), `Model/CubicSpline.lean` (`cubic_spline`).
-The functions below (`rowAll`, `rowFor`, `transform`, `fit`, …) are the ones the correspondence
-engine `Engines/C12.lean` runs against the real code on every check. -/
+The functions below (`rowAll`, `rowFor`, `transform`, `fit`, `freeRow`, `residualF`, …) are the ones
+the correspondence engine `Engines/C12.lean` runs against the real code on every check.
+
+Notion of derivative used for the cubic-spline theorems (C12.5): on each knot interval the column
+of the design matrix is a polynomial piece `Spec.CubicSpline.Piece` with explicit `val`, `d1`,
+`d2`.  `piece_derivatives_formal` proves that `val` is a polynomial of degree ≤ 3 whose
+`Polynomial.derivative` is `d1` and whose second derivative is `d2` (over `ℚ`, where the model
+computes); `piece_derivatives_analytic` proves `HasDerivAt` over any normed field of
+characteristic 0.  "C¹ / C² at a knot" means: the two adjacent pieces have equal `d1` / `d2`
+values at the shared knot; `cr_glued_pieces_C2_real` turns that into: the glued function `ℝ → ℝ` is
+twice differentiable everywhere.  Not proved: uniqueness of the natural / periodic interpolating
+spline (its defining conditions — piecewise cubic, interpolation, C², end conditions — are). -/
 
 namespace FormulaicVerif.Props.C12
 open FormulaicVerif.Model.BSpline FormulaicVerif.Spec.BSpline FormulaicVerif.Proofs.C12
@@ -329,7 +344,7 @@ example : (transform ⟨0, 1, padKnots 0 [] 1 1⟩ 1 true .raise [some (1/2), so
   decide +kernel
 
 section cubic
-open FormulaicVerif.Model.CubicSpline
+open FormulaicVerif.Model.CubicSpline FormulaicVerif.Spec.CubicSpline
 
 /-- **C12.5a** Identity at the knots, natural spline: for ANY second-derivative map `F` (of the
 right shape), the unconstrained design-matrix row at knot `k` is the unit row `e_k`.  Hence the
@@ -357,25 +372,8 @@ theorem cc_identity_at_knots (knots : List Rat) (F : List (List Rat)) (k : ℕ)
   have := freeRowCore_at knots hs hn k hk (knots.length - 1) true F hF hFr (by simp)
   simpa using this
 
-/-
--- FULL (unproved): cr_is_natural_interpolant / cc_is_periodic_interpolant  (DESIGN C12.5)
---   Let `F` satisfy the contract `natB h · F[1:-1] = natD h` with zero first and last row
---   (resp. `cycB h · F = cycD h`).  Then for every coefficient vector `β` the function
---   `x ↦ dot (freeRow knots cyclic F x) β` is, on each knot interval, a cubic polynomial; it takes
---   the value `β_k` at knot `k`; its second derivative is continuous (piecewise linear with values
---   `(F β)_k` at the knots) and its FIRST derivative is continuous at every interior knot
---   (resp. at every node of the circle) — i.e. it is THE natural (periodic) interpolating cubic
---   spline of the data `(knots_k, β_k)`.
--- Proved below: the interpolation clause, for ANY `F` (`cr_is_natural_interpolant_partial`; the
---   identity-at-knots theorems are the same fact for the cardinal basis, natural and cyclic).
--- Missing: a formal derivative of the model's piecewise definition (one-sided derivatives of
---   `baseFunctions` at the knots) and the `field_simp; ring` step per interior knot that turns
---   row `i` of `B·F = D` into continuity of the first derivative.  Until then this clause is
---   covered by (i) the per-case exact check of the contract `B·F = D` on the implementation's `F`
---   with the model's `natB/natD/cycB/cycD`, and (ii) the oracle's comparison of the
---   implementation with `scipy.interpolate.CubicSpline(bc_type="natural"/"periodic")`.
--/
-/-- **C12.5c (partial)** Interpolation: for ANY `F`, the spline with coefficient vector `β`
+/-- **C12.5c** Interpolation, for ANY `F` (a corollary of identity at the knots; the theorem keeps its
+name from the round in which C12.5 was still open): for ANY `F`, the spline with coefficient vector `β`
 takes the value `β_k` at knot `k` — the coefficients of a `cr` basis are the function values at
 the knots. -/
 theorem cr_is_natural_interpolant_partial (knots : List Rat) (F : List (List Rat)) (k : ℕ)
@@ -387,6 +385,217 @@ theorem cr_is_natural_interpolant_partial (knots : List Rat) (F : List (List Rat
   rw [List.range_eq_range']
   have := dot_unit knots.length 0 k β hβ hk
   simpa using this
+
+/-- **C12.5d** `Piece.d1` and `Piece.d2` are the first and second derivative of `Piece.val`:
+formally — `val` is the evaluation of a polynomial of degree ≤ 3 whose `Polynomial.derivative`
+evaluates to `d1` and whose second derivative evaluates to `d2` (any field of characteristic 0,
+in particular `ℚ`, where the model computes) — -/
+theorem piece_derivatives_formal {α : Type} [Field α] [CharZero α] (p : Piece α) (hh : p.h ≠ 0) :
+    ∃ P : Polynomial α, P.natDegree ≤ 3 ∧ (∀ x, P.eval x = p.val x) ∧
+      (∀ x, (Polynomial.derivative P).eval x = p.d1 x) ∧
+      (∀ x, (Polynomial.derivative (Polynomial.derivative P)).eval x = p.d2 x) :=
+  ⟨Piece.poly p, Piece.poly_natDegree p, Piece.poly_eval p, Piece.poly_derivative_eval p,
+    Piece.poly_derivative2_eval p hh⟩
+
+/-- … and analytically: over any normed field of characteristic 0 (e.g. `ℝ`) `val` has derivative
+`d1 x` at every `x` and `d1` has derivative `d2 x` (Mathlib's `HasDerivAt`). -/
+theorem piece_derivatives_analytic {𝕜 : Type} [NontriviallyNormedField 𝕜] [CharZero 𝕜] (p : Piece 𝕜)
+    (hh : p.h ≠ 0) (x : 𝕜) : HasDerivAt p.val (p.d1 x) x ∧ HasDerivAt p.d1 (p.d2 x) x :=
+  ⟨Piece.hasDerivAt_val p x, Piece.hasDerivAt_d1 p hh x⟩
+
+/-- **C12.5e** For ANY `F`: the first derivative of column `c` of the natural design matrix is
+continuous at the interior knot `k_{j+1}` IFF the tridiagonal equation of that knot holds for the
+values `e_c` and the second derivatives `F[·][c]`. -/
+theorem cr_c1_iff_tridiagonal (knots : List Rat) (F : List (List Rat)) (hs : knots.Pairwise (· < ·))
+    (j c : ℕ) (hj : j + 2 < knots.length) :
+    (crPiece knots F j c).d1 (knotFn knots (j + 1)) = (crPiece knots F (j + 1) c).d1 (knotFn knots (j + 1))
+      ↔ TriEq (hsp knots j) (hsp knots (j + 1)) (delta j c) (delta (j + 1) c) (delta (j + 2) c)
+          (Ffn F j c) (Ffn F (j + 1) c) (Ffn F (j + 2) c) :=
+  Piece.c1_iff_triEq (crPiece knots F j c) (crPiece knots F (j + 1) c)
+    (crPiece_h_ne knots hs F j c (by omega)) (crPiece_h_ne knots hs F (j + 1) c hj) rfl rfl
+
+/-- **C12.5** The natural cubic regression spline.  Let `F` satisfy the contract the engine
+evaluates on every case (`residualF knots false F = 0`: `natB·F[1:-1] = natD`, first and last
+row of `F` zero).  Then column `c` of the free design matrix, as a function of `x` on
+`[k_0, k_{n-1}]`, is the natural interpolating cubic spline of the unit vector `e_c`:
+(0) on each closed knot interval the value the MODEL computes is the value of the cubic piece
+    `crPiece knots F j c` (so the column is a piecewise cubic, and single-valued at the knots);
+(i) the pieces interpolate `e_c` at both ends;
+(ii) the second derivatives of adjacent pieces agree at the shared knot (C², by construction);
+(iii) the first derivatives of adjacent pieces agree at every interior knot (C¹ — this is what
+     the contract buys, see `cr_c1_iff_tridiagonal`);
+(iv) the second derivative vanishes at the two boundary knots (natural end conditions).
+Derivatives are `Piece.d1`, `Piece.d2`, which are the derivatives of `Piece.val`
+(`piece_derivatives_formal`, `piece_derivatives_analytic`). -/
+theorem cr_is_natural_interpolant (knots : List Rat) (F : List (List Rat))
+    (hs : knots.Pairwise (· < ·)) (hn : 2 ≤ knots.length)
+    (hF : F.length = knots.length) (hFr : ∀ r ∈ F, r.length = knots.length)
+    (hcontract : AllZero (residualF knots false F)) (c : ℕ) (hc : c < knots.length) :
+    (∀ j (hj : j + 1 < knots.length) (x : ℚ), knots[j] ≤ x → x ≤ knots[j + 1] →
+        ∃ row, freeRow knots false F x = .ok row ∧ row[c]? = some ((crPiece knots F j c).val x)) ∧
+    (∀ j, j + 1 < knots.length →
+        (crPiece knots F j c).val (knotFn knots j) = delta j c ∧
+        (crPiece knots F j c).val (knotFn knots (j + 1)) = delta (j + 1) c) ∧
+    (∀ j, j + 2 < knots.length →
+        (crPiece knots F j c).d2 (knotFn knots (j + 1))
+          = (crPiece knots F (j + 1) c).d2 (knotFn knots (j + 1))) ∧
+    (∀ j, j + 2 < knots.length →
+        (crPiece knots F j c).d1 (knotFn knots (j + 1))
+          = (crPiece knots F (j + 1) c).d1 (knotFn knots (j + 1))) ∧
+    (crPiece knots F 0 c).d2 (knotFn knots 0) = 0 ∧
+    (crPiece knots F (knots.length - 2) c).d2 (knotFn knots (knots.length - 1)) = 0 := by
+  obtain ⟨h0, hlast, htri⟩ := nat_contract_tri knots F hn hF hFr hcontract
+  refine ⟨?_, ?_, ?_, ?_, ?_, ?_⟩
+  · intro j hj x h1 h2
+    exact ⟨_, freeRow_nat_piece knots hs hn F hF hFr j hj x h1 h2, map_getElem?_range _ c hc _⟩
+  · intro j hj
+    exact ⟨Piece.val_left _ (crPiece_h_ne knots hs F j c hj), Piece.val_right _ (crPiece_h_ne knots hs F j c hj)⟩
+  · intro j hj
+    have a := Piece.d2_right _ (crPiece_h_ne knots hs F j c (by omega))
+    have b := Piece.d2_left _ (crPiece_h_ne knots hs F (j + 1) c hj)
+    exact a.trans b.symm
+  · intro j hj
+    exact (cr_c1_iff_tridiagonal knots F hs j c hj).2 (htri j c hj hc)
+  · have := Piece.d2_left _ (crPiece_h_ne knots hs F 0 c (by omega))
+    exact this.trans (h0 c)
+  · have e : knots.length - 2 + 1 = knots.length - 1 := by omega
+    have := Piece.d2_right _ (crPiece_h_ne knots hs F (knots.length - 2) c (by omega))
+    simp only [crPiece, e] at this ⊢
+    exact this.trans (hlast c)
+
+
+/-- **C12.5e'** cyclic analogue of `cr_c1_iff_tridiagonal`, at node `r` of the circle (node 0 is
+the first AND the last knot): the left piece is the one on `[k_{pred r}, k_{pred r + 1}]`. -/
+theorem cc_c1_iff_tridiagonal (knots : List Rat) (F : List (List Rat)) (hs : knots.Pairwise (· < ·))
+    (r c : ℕ) (hr : r < knots.length - 1) :
+    (ccPiece knots F (cpred (knots.length - 1) r) c).d1 (knotFn knots (cpred (knots.length - 1) r + 1))
+        = (ccPiece knots F r c).d1 (knotFn knots r)
+      ↔ TriEq (hsp knots (cpred (knots.length - 1) r)) (hsp knots r)
+          (delta (cpred (knots.length - 1) r) c) (delta r c) (delta (csucc (knots.length - 1) r) c)
+          (Ffn F (cpred (knots.length - 1) r) c) (Ffn F r c) (Ffn F (csucc (knots.length - 1) r) c) := by
+  have hp := cpred_lt (knots.length - 1) r hr
+  have e := csucc_cpred (knots.length - 1) r hr
+  have key := Piece.c1_iff_triEq (ccPiece knots F (cpred (knots.length - 1) r) c) (ccPiece knots F r c)
+    (ccPiece_h_ne knots hs F _ c (by omega)) (ccPiece_h_ne knots hs F r c (by omega))
+    (by simp only [ccPiece, e]) (by simp only [ccPiece, e])
+  simp only [ccPiece, Piece.h, e] at key
+  simp only [ccPiece, hsp, e]
+  exact key
+
+/-- **C12.5'** The cyclic cubic regression spline.  Let `F` satisfy `residualF knots true F = 0`
+(`cycB·F = cycD`).  Then column `c` of the free design matrix (`m = len(knots) − 1` columns; the
+last knot is node 0 again) is the PERIODIC interpolating cubic spline of `e_c`:
+(0) on each closed knot interval the model's value is that of the cubic piece `ccPiece`;
+(i) the pieces interpolate `e_c` (the right end of the last piece carries the value of node 0);
+(ii)/(iii) at EVERY node `r` of the circle — including node 0, where the piece ending at the
+last knot meets the piece starting at the first knot — second and first derivatives of the two
+adjacent pieces agree. -/
+theorem cc_is_periodic_interpolant (knots : List Rat) (F : List (List Rat))
+    (hs : knots.Pairwise (· < ·)) (hn : 2 ≤ knots.length)
+    (hF : F.length = knots.length - 1) (hFr : ∀ r ∈ F, r.length = knots.length - 1)
+    (hcontract : AllZero (residualF knots true F)) (c : ℕ) (hc : c < knots.length - 1) :
+    (∀ j (hj : j + 1 < knots.length) (x : ℚ), knots[j] ≤ x → x ≤ knots[j + 1] →
+        ∃ row, freeRow knots true F x = .ok row ∧ row[c]? = some ((ccPiece knots F j c).val x)) ∧
+    (∀ j, j + 1 < knots.length →
+        (ccPiece knots F j c).val (knotFn knots j) = delta j c ∧
+        (ccPiece knots F j c).val (knotFn knots (j + 1)) = delta (csucc (knots.length - 1) j) c) ∧
+    (∀ r, r < knots.length - 1 →
+        (ccPiece knots F (cpred (knots.length - 1) r) c).d2 (knotFn knots (cpred (knots.length - 1) r + 1))
+          = (ccPiece knots F r c).d2 (knotFn knots r)) ∧
+    (∀ r, r < knots.length - 1 →
+        (ccPiece knots F (cpred (knots.length - 1) r) c).d1 (knotFn knots (cpred (knots.length - 1) r + 1))
+          = (ccPiece knots F r c).d1 (knotFn knots r)) := by
+  have htri := cyc_contract_tri knots F hn hF hFr hcontract
+  refine ⟨?_, ?_, ?_, ?_⟩
+  · intro j hj x h1 h2
+    exact ⟨_, freeRow_cyc_piece knots hs hn F hF hFr j hj x h1 h2, map_getElem?_range _ c hc _⟩
+  · intro j hj
+    exact ⟨Piece.val_left _ (ccPiece_h_ne knots hs F j c hj), Piece.val_right _ (ccPiece_h_ne knots hs F j c hj)⟩
+  · intro r hr
+    have hp := cpred_lt (knots.length - 1) r hr
+    have e := csucc_cpred (knots.length - 1) r hr
+    have a := Piece.d2_right _ (ccPiece_h_ne knots hs F (cpred (knots.length - 1) r) c (by omega))
+    have b := Piece.d2_left _ (ccPiece_h_ne knots hs F r c (by omega))
+    simp only [ccPiece, e] at a b ⊢
+    exact a.trans b.symm
+  · intro r hr
+    exact (cc_c1_iff_tridiagonal knots F hs r c hr).2 (htri r c hr hc)
+
+
+/-- **C12.5f** Linear extrapolation (`extrapolation="extend"`, the default of `cr`): under the
+contract, outside the knot range column `c` of the natural design matrix is the TANGENT LINE of
+the boundary piece at the boundary knot — the natural spline continued with zero second
+derivative, C¹ at the boundary. -/
+theorem cr_linear_beyond_knots (knots : List Rat) (F : List (List Rat))
+    (hs : knots.Pairwise (· < ·)) (hn : 2 ≤ knots.length)
+    (hF : F.length = knots.length) (hFr : ∀ r ∈ F, r.length = knots.length)
+    (hcontract : AllZero (residualF knots false F)) (c : ℕ) (hc : c < knots.length) :
+    (∀ x : ℚ, x < knots[0] → ∃ row, freeRow knots false F x = .ok row ∧
+        row[c]? = some (tangentL (crPiece knots F 0 c) x)) ∧
+    (∀ x : ℚ, knots[knots.length - 1] < x → ∃ row, freeRow knots false F x = .ok row ∧
+        row[c]? = some (tangentR (crPiece knots F (knots.length - 2) c) x)) := by
+  obtain ⟨h0, hlast, _⟩ := nat_contract_tri knots F hn hF hFr hcontract
+  exact ⟨fun x hx => ⟨_, freeRow_nat_below knots hs hn F hF hFr h0 x hx, map_getElem?_range _ c hc _⟩,
+    fun x hx => ⟨_, freeRow_nat_above knots hs hn F hF hFr hlast x hx, map_getElem?_range _ c hc _⟩⟩
+
+/-- **C12.5g** The same C² statement in the language of real analysis: under the contract, the
+two pieces of column `c` on either side of an interior knot, read over `ℝ` and glued at the knot,
+form a function that is twice differentiable at EVERY real `x` (Mathlib `HasDerivAt`); its
+derivative is the glued `d1` and its second derivative the glued `d2`. -/
+theorem cr_glued_pieces_C2_real (knots : List Rat) (F : List (List Rat))
+    (hs : knots.Pairwise (· < ·)) (hn : 2 ≤ knots.length)
+    (hF : F.length = knots.length) (hFr : ∀ r ∈ F, r.length = knots.length)
+    (hcontract : AllZero (residualF knots false F)) (c : ℕ) (hc : c < knots.length)
+    (j : ℕ) (hj : j + 2 < knots.length) (x : ℝ) :
+    let p := (crPiece knots F j c).toReal
+    let q := (crPiece knots F (j + 1) c).toReal
+    let k : ℝ := (knotFn knots (j + 1) : ℚ)
+    HasDerivAt (glue p.val q.val k) (glue p.d1 q.d1 k x) x ∧
+      HasDerivAt (glue p.d1 q.d1 k) (glue p.d2 q.d2 k x) x := by
+  obtain ⟨_, hi, hii, hiii, _⟩ := cr_is_natural_interpolant knots F hs hn hF hFr hcontract c hc
+  exact pieces_glue_C2 (crPiece knots F j c) (crPiece knots F (j + 1) c)
+    (crPiece_h_ne knots hs F j c (by omega)) (crPiece_h_ne knots hs F (j + 1) c hj) rfl
+    ((hi j (by omega)).2.trans (hi (j + 1) hj).1.symm) (hiii j hj) (hii j hj) x
+
+/-- **C12.5g'** cyclic analogue at the interior knots (at node 0 the two pieces meet only after
+the periodic identification of the last knot with the first, see `cc_is_periodic_interpolant`). -/
+theorem cc_glued_pieces_C2_real (knots : List Rat) (F : List (List Rat))
+    (hs : knots.Pairwise (· < ·)) (hn : 2 ≤ knots.length)
+    (hF : F.length = knots.length - 1) (hFr : ∀ r ∈ F, r.length = knots.length - 1)
+    (hcontract : AllZero (residualF knots true F)) (c : ℕ) (hc : c < knots.length - 1)
+    (j : ℕ) (hj : j + 2 < knots.length) (x : ℝ) :
+    let p := (ccPiece knots F j c).toReal
+    let q := (ccPiece knots F (j + 1) c).toReal
+    let k : ℝ := (knotFn knots (j + 1) : ℚ)
+    HasDerivAt (glue p.val q.val k) (glue p.d1 q.d1 k x) x ∧
+      HasDerivAt (glue p.d1 q.d1 k) (glue p.d2 q.d2 k x) x := by
+  obtain ⟨_, hi, hii, hiii⟩ := cc_is_periodic_interpolant knots F hs hn hF hFr hcontract c hc
+  have e : cpred (knots.length - 1) (j + 1) = j := by simp [cpred]
+  have e2 : csucc (knots.length - 1) j = j + 1 := by
+    unfold csucc; rw [if_neg (by omega)]
+  have a := hii (j + 1) (by omega)
+  have b := hiii (j + 1) (by omega)
+  rw [e] at a b
+  exact pieces_glue_C2 (ccPiece knots F j c) (ccPiece knots F (j + 1) c)
+    (ccPiece_h_ne knots hs F j c (by omega)) (ccPiece_h_ne knots hs F (j + 1) c hj) rfl
+    ((hi j (by omega)).2.trans (by rw [e2]; exact (hi (j + 1) hj).1.symm)) b a x
+
+/-! ### Non-vacuity for C12.5: exact second-derivative maps satisfying the contract -/
+
+/-- natural spline through the knots 0, 1, 3: `F = [0; B⁻¹D; 0]` with `B = [1]`, `D = [1, −3/2, 1/2]` -/
+example : AllZero (residualF [0, 1, 3] false [[0, 0, 0], [1, -3/2, 1/2], [0, 0, 0]]) := by
+  unfold AllZero; decide +kernel
+/-- periodic spline with the two nodes 0, 1 (period 3) -/
+example : AllZero (residualF [0, 1, 3] true [[-3, 3], [3, -3]]) := by
+  unfold AllZero; decide +kernel
+/-- the contract is not vacuous: a wrong `F` violates it -/
+example : ¬ AllZero (residualF [0, 1, 3] false [[0, 0, 0], [1, 1, 1], [0, 0, 0]]) := by
+  unfold AllZero; decide +kernel
+/-- and with the wrong `F` the first derivative really jumps at the interior knot (C12.5e) -/
+example : (crPiece [0, 1, 3] [[0, 0, 0], [1, 1, 1], [0, 0, 0]] 0 1).d1 1
+    ≠ (crPiece [0, 1, 3] [[0, 0, 0], [1, 1, 1], [0, 0, 0]] 1 1).d1 1 := by decide +kernel
+example : (crPiece [0, 1, 3] [[0, 0, 0], [1, -3/2, 1/2], [0, 0, 0]] 0 1).d1 1
+    = (crPiece [0, 1, 3] [[0, 0, 0], [1, -3/2, 1/2], [0, 0, 0]] 1 1).d1 1 := by decide +kernel
 
 /-- **C12.6** Centering: if `c` is the vector of column means of the (non-null) free rows and
 every column of `Q₂` is orthogonal to `c`, then every column of the absorbed matrix `M · Q₂` has
